@@ -15,6 +15,8 @@
 package crdt
 
 import (
+	"errors"
+	"math"
 	"time"
 
 	"github.com/kelindar/binary"
@@ -29,6 +31,21 @@ type Map interface {
 	Merge(Map)
 	Range([]byte, bool, func(string, Value) bool)
 	Count() int
+}
+
+// errCorrupt is returned when decoding a payload which is not a valid encoded set.
+var errCorrupt = errors.New("crdt: corrupt payload")
+
+// readSlice reads a length-prefixed slice, refusing lengths which can not be valid.
+func readSlice(d *binary.Decoder) ([]byte, error) {
+	l, err := d.ReadUvarint()
+	if err != nil {
+		return nil, err
+	}
+	if l > math.MaxInt32 {
+		return nil, errCorrupt
+	}
+	return d.Slice(int(l))
 }
 
 // New creates a new CRDT map.
